@@ -8,6 +8,7 @@ level `n` (no bound on K) and all well-formed operands; carries and borrows are 
 -/
 import GivaroModel.Lemmas.RecIntConv
 import GivaroModel.Lemmas.RecIntMixed
+import GivaroModel.Lemmas.RecIntBezout
 namespace Givaro.Props.C06
 open Givaro.Model.RecInt
 
@@ -309,6 +310,15 @@ theorem left_shift_wide_exact {n : Nat} (a : RU n) (d : Nat) (ha : WF a) :
 /-- `|`, `|=`: bitwise or of the values -/
 theorem or_exact {n : Nat} (x y : RU n) (hx : WF x) (hy : WF y) : WF (lor x y) ∧ val (lor x y) = val x ||| val y := lor_ok x y hx hy
 
+/-- `&`, `&=`: bitwise and of the values (limb-wise code, every size) -/
+theorem and_exact {n : Nat} (x y : RU n) (hx : WF x) (hy : WF y) : WF (land x y) ∧ val (land x y) = val x &&& val y := land_ok x y hx hy
+
+/-- `^`, `^=`: bitwise exclusive or of the values -/
+theorem xor_exact {n : Nat} (x y : RU n) (hx : WF x) (hy : WF y) : WF (lxor x y) ∧ val (lxor x y) = val x ^^^ val y := lxor_ok x y hx hy
+
+example : ∃ x y : RU 1, WF x ∧ WF y ∧ val (land x y) ≠ 0 ∧ val (lxor x (zero 1)) ≠ 0 :=
+  ⟨ones 1, ones 1, by simp [ones, WF, B64], by simp [ones, WF, B64], by decide, by decide⟩
+
 example : ∃ (ah al b : RU 1), WF ah ∧ WF al ∧ WF b ∧ Bn 1 ≤ 2 * val b ∧ val ah < val b :=
   ⟨zero 1, zero 1, ones 1, by simp [zero, WF, B64], by simp [zero, WF, B64], by simp [ones, WF, B64],
    by simp [ones, val, Bn, bits, B64], by simp [ones, zero, val, Bn, bits, B64]⟩
@@ -382,6 +392,24 @@ theorem exp_mod_word_exact (t : Nat) {n : Nat} (b : RU n) (c : Nat) (m : RU n) (
     Limb base case by the telescoping product `(1-x)(1+x)(1+x²)…(1+x³²) = 1 - x⁶⁴` in `ZMod 2⁶⁴`, lifting step by ring identities -/
 theorem arazi_qi_exact (t : Nat) {n : Nat} (a : RU n) (ha : WF a) (hodd : val a % 2 = 1) :
     WF (arazi_qi t a) ∧ (val (arazi_qi t a) * val a) % Bn n = 1 := arazi_qi_ok t a ha hodd
+
+/-- `bezout_mod(x, y, c, d)` (ruinvmod.h) for **all** non-zero `c`, `d`, coprime or not: the two cofactor tracks, reduced modulo `d`
+    resp. `c` at every step, satisfy `x·c ≡ gcd(c, d) (mod d)` and `y·d ≡ gcd(c, d) (mod c)` with `0 ≤ x < d`, `0 ≤ y ≤ c`
+    (`y = c` only when `c = d = 1`, where the code returns `y = 1`).  The code does not compute an identity modulo `2^(2^K)`:
+    it computes the two modular inverses-up-to-the-gcd the header documents; `c = 0` with `d ≠ 0` divides by zero (outside the contract). -/
+theorem bezout_mod_exact (t : Nat) {n : Nat} (c d : RU n) (hc : WF c) (hd : WF d) (hcne : val c ≠ 0) (hdne : val d ≠ 0) :
+    WF (bezout_mod t c d).1 ∧ WF (bezout_mod t c d).2 ∧ val (bezout_mod t c d).1 < val d ∧ val (bezout_mod t c d).2 ≤ val c ∧
+    (val (bezout_mod t c d).1 * val c) % val d = Nat.gcd (val c) (val d) % val d ∧
+    (val (bezout_mod t c d).2 * val d) % val c = Nat.gcd (val c) (val d) % val c :=
+  bezout_mod_ok t c d hc hd hcne hdne
+
+/-- the documented case: for relatively prime `c`, `d`: `x·c = 1 mod d` and `y·d = 1 mod c` -/
+theorem bezout_mod_coprime (t : Nat) {n : Nat} (c d : RU n) (hc : WF c) (hd : WF d) (hcne : val c ≠ 0) (hdne : val d ≠ 0)
+    (hcop : Nat.gcd (val c) (val d) = 1) :
+    (val (bezout_mod t c d).1 * val c) % val d = 1 % val d ∧ (val (bezout_mod t c d).2 * val d) % val c = 1 % val c := by
+  have h := bezout_mod_ok t c d hc hd hcne hdne
+  rw [hcop] at h
+  exact ⟨h.2.2.2.2.1, h.2.2.2.2.2⟩
 
 example : ∃ (b c : RU 1), WF b ∧ WF c ∧ val c ≠ 0 ∧ Nat.gcd (val b) (val c) = 1 ∧ val c % 2 = 1 :=
   ⟨zero 1, ofLimb 1 1, by simp [zero, WF, B64], by simp [ofLimb, zero, WF, B64], by simp [ofLimb, zero, val],
